@@ -119,7 +119,9 @@ func (c *Ctx) LatchGated(construct string, rl *RangeLoop, clauses []Clause) bool
 		gate := AtomEdges(cl...)
 		q := ReachQ{Fn: rl.Fn, From: &Loc{rl.Body, -1},
 			CutEdge: func(b *ssa.BasicBlock, s int) bool {
-				return gate(b, s) || b.Succs[s] == rl.Done
+				// leaving the loop (done block, or any block the header does not dominate:
+				// `continue outer`, return) is not an advance of this loop
+				return gate(b, s) || b.Succs[s] == rl.Done || !rl.Header.Dominates(b.Succs[s])
 			},
 			SinkEdge: func(b *ssa.BasicBlock, s int) bool { return b.Succs[s] == rl.Header },
 		}
